@@ -11,7 +11,7 @@ use uuid::Uuid;
 
 fn own_ref(r: &IdRef, c: u8) -> bool {
     match r {
-        IdRef::Nil | IdRef::Fresh(_) | IdRef::Literal(_) => true,
+        IdRef::Nil | IdRef::Fresh(_) | IdRef::Literal(_) | IdRef::OfClients(..) => true,
         IdRef::Latest(k) | IdRef::Ancestor(k, _) | IdRef::Base(k) | IdRef::SnapVersion(k) | IdRef::Near(k, _, _) => *k == c,
     }
 }
